@@ -10,6 +10,7 @@
 //!   PollStep.lean    – `process_response` (interval expressions, which replies continue) and the two poll loops
 //!   ResponseFlow.lean – `endpoint_response` and friends as a decision tree
 //!   SerdeShapes.lean – the serde-derived structs: fields with JSON names and serde attributes, accessors, setters
+//!   RequestBuilders.lean – the eight request builder structs: fields, builder-method effects, constructors
 //!   AuthUrlSteps.lean – `AuthorizationRequest::url`, its builder methods, constructor and entry points
 //! Files are rewritten only when their content changes.  The first four are written together or not at all
 //! (they share the inventory); each of the last three is translated and written on its own, so that a shape
@@ -20,6 +21,7 @@
 //!   TRANSLATION-FAILURE: <file>:<item>: <what was expected>
 //! on stdout and exit status 1 (bin/check reports it like a broken proof, DESIGN §3.3).
 mod authurl;
+mod builders;
 mod client;
 mod consts;
 mod inventory;
@@ -127,6 +129,7 @@ fn run(src: &Path, outdir: &Path, inv_json: &Path) -> R<Vec<String>> {
     emit("ResponseFlow.lean", respflow::extract(&srcs), &mut status);
     emit("AuthUrlSteps.lean", authurl::extract(&srcs), &mut status);
     emit("SerdeShapes.lean", serdeshape::extract(&srcs), &mut status);
+    emit("RequestBuilders.lean", builders::extract(&srcs), &mut status);
     emit("ErrorTables.lean", tables::extract(&srcs), &mut status);
     match inventory::extract(&srcs) {
         Ok(mut inv) => {
